@@ -1,3 +1,5 @@
+from copy import copy
+
 from reamber.algorithms.convert.ConvertBase import ConvertBase
 from reamber.osu.OsuMap import OsuMap
 from reamber.quaver.QuaMap import QuaMap
@@ -37,7 +39,7 @@ class OsuToQua(ConvertBase):
         qua.mode = QuaMapMode.get_mode(int(osu.circle_size))
         qua.artist = osu.artist
         qua.creator = osu.creator
-        qua.tags = osu.tags
+        qua.tags = copy(osu.tags)
         qua.difficulty_name = osu.version
         qua.background_file = osu.background_file_name
         qua.song_preview_time = osu.preview_time
